@@ -1,15 +1,33 @@
 """Generated/Effects.lean: persistent-state effects of the generation stage, in execution order.
 
 Walks duplicate_checker.main and inlines every function of generator/simplifier/duplicate_checker/utils it calls, in
-source order; collects open()/np.loadtxt/np.savetxt/np.genfromtxt/os.remove and os.system (cat, sed, mv, rm, touch)
-effects with the file name pattern (directory dropped, every formatted value replaced by '#').  Loops over literal
-lists of strings are unrolled.  Fails closed on a shell command or open mode it does not know.
-Also: np.random.shuffle calls not preceded by np.random.seed in the same function, and sympify(..., locals=locs) uses
-in functions that do not (re)write the a<i> keys of the shared table first.
+source order; collects open()/np.loadtxt/np.savetxt/np.genfromtxt/os.remove/os.unlink/os.rename/os.replace/shutil.move/
+shutil.copy* and os.system (cat, sed, mv, rm, touch) effects with the file name pattern (directory dropped, every formatted
+value replaced by '#').  Fails closed on a shell command, an open mode or a file operation (pathlib, tempfile, other
+shutil/os calls) it does not know.
+Also: np.random.shuffle calls not preceded by np.random.seed in the same function, and sympify(..., locals=<the shared
+symbol table>) uses in functions that do not (re)write the a<i> keys of the shared table first.
+
+Source shapes read as the same thing (each keeps the Python meaning; the list is part of the trusted translator):
+  * file names: `%` formatting, f-strings, concatenation with str(), "...{}".format(...), os.path.join(d, name) (only the last
+    path component names the file), a name hoisted into a local (`path = ...; open(path)`), a module-level constant;
+  * loops over a literal list OR tuple of names (also hoisted into a local or a module-level constant) are unrolled, so they
+    equal the duplicated statements; `with open(p, 'w'): pass` = `open(p, 'w').close()` (any open call counts);
+  * open mode given positionally, as `mode=`, or through a local bound to a literal; 'b'/'t' dropped;
+  * os.system('mv a b') = os.rename/os.replace/shutil.move(a, b); os.system('rm a') = os.remove/os.unlink(a);
+  * one level of helper inlining and source-order (not line-number) comparisons: extractors/_norm_c16.py (A, B);
+  * the seeded-shuffle rule reads `numpy.` as `np.`; a generator object may be seeded by a literal, by a local only ever
+    bound to literals (`shuffle_seed = 1234`) or by a parameter of the function (an input of the call);
+  * the shared symbol table is recognised by what it IS (a module-level dict of esr/fitting/sympy_symbols.py, under any
+    local alias, import alias or module attribute, through `x if c else y` and through a called function all of whose
+    returns hand it back), not by the local name `locs`; a store into its a<i> keys is recognised in every spelling of
+    _norm_c16 (C): subscript store in an index/zip/enumerate loop, f-string/format/concatenated key, `.update(zip(names,
+    symbols))`, `.update({...})`, or a call of a function that does one of these.
 """
 import ast, re
 import extract
 from extract import ExtractError, lstr
+from extractors import _norm_c16 as norm
 
 FILES = ["esr/generation/duplicate_checker.py", "esr/generation/generator.py", "esr/generation/simplifier.py", "esr/generation/utils.py"]
 READERS = {"np.loadtxt", "np.genfromtxt", "numpy.loadtxt"}
@@ -41,6 +59,25 @@ def _fmt(e, env):
         return out
     if isinstance(e, ast.Call) and isinstance(e.func, ast.Name) and e.func.id == "str" and e.args:
         return "{%s}" % ast.unparse(e.args[0])
+    if isinstance(e, ast.Call) and ast.unparse(e.func) in ("os.path.join", "path.join") and e.args and not e.keywords \
+            and not any(isinstance(a, ast.Starred) for a in e.args):
+        # only the last component names the file (_key drops the directory)
+        return "/".join(_fmt(a, env) for a in e.args)
+    if isinstance(e, ast.Call) and isinstance(e.func, ast.Attribute) and e.func.attr == "format" and isinstance(e.func.value, ast.Constant) \
+            and isinstance(e.func.value.value, str) and not any(isinstance(a, ast.Starred) for a in e.args):
+        vals = [_fmt(a, env) for a in e.args]
+        kw = {k.arg: _fmt(k.value, env) for k in e.keywords if k.arg}
+        cnt = [0]
+
+        def field(mo):
+            nm = mo.group(1)
+            if nm == "":
+                i = cnt[0]; cnt[0] += 1
+                return vals[i] if i < len(vals) else "{?}"
+            if nm.isdigit():
+                return vals[int(nm)] if int(nm) < len(vals) else "{?}"
+            return kw.get(nm, "{?}")
+        return re.sub(r"\{(\w*)(?:[:!][^}]*)?\}", field, e.func.value.value)
     if isinstance(e, ast.JoinedStr):
         return "".join(_fmt(v.value, env) if isinstance(v, ast.FormattedValue) else str(v.value) for v in e.values)
     return "{%s}" % ast.unparse(e)[:30]
@@ -86,12 +123,274 @@ FIT_STAGES = [("fit", "esr/fitting/test_all.py"), ("fisher", "esr/fitting/test_a
               ("combine", "esr/fitting/combine_DL.py")]
 
 
+TABLE_FILE = "esr/fitting/sympy_symbols.py"
+TABLE_MODULE = "esr.fitting.sympy_symbols"
+RNG_CTORS = ("np.random.RandomState", "np.random.default_rng", "random.Random")
+_CACHE = {}
+
+
+def _module(stage, rel):
+    """normalised tree of one module (helpers inlined, see _norm_c16), the module-level names that are the shared symbol table, the
+    names under which its defining module is imported"""
+    src = extract._read(stage, rel)
+    k = (stage, rel, hash(src))
+    if k not in _CACHE:
+        if True:
+            tree, inl = norm.inline_helpers(ast.parse(src))
+            tabs = _table_names(stage)
+            g, mods = set(), set()
+            if rel == TABLE_FILE:
+                g |= tabs
+            for n in ast.walk(tree):
+                if isinstance(n, ast.ImportFrom) and n.module == TABLE_MODULE and not n.level:
+                    for a in n.names:
+                        if a.name in tabs:
+                            g.add(a.asname or a.name)
+                elif isinstance(n, ast.ImportFrom) and n.module == TABLE_MODULE.rsplit(".", 1)[0] and not n.level:
+                    for a in n.names:
+                        if a.name == TABLE_MODULE.rsplit(".", 1)[1]:
+                            mods.add(a.asname or a.name)
+                elif isinstance(n, ast.Import):
+                    for a in n.names:
+                        if a.name == TABLE_MODULE:
+                            mods.add(a.asname or a.name)
+            # module-level aliases `LOCS = sympy_locs`
+            for st in tree.body:
+                if isinstance(st, ast.Assign) and isinstance(st.value, ast.Name) and st.value.id in g:
+                    g |= {t.id for t in st.targets if isinstance(t, ast.Name)}
+            consts = {}
+            for st in tree.body:
+                if isinstance(st, ast.Assign) and len(st.targets) == 1 and isinstance(st.targets[0], ast.Name):
+                    try:
+                        v = ast.literal_eval(st.value)
+                    except Exception:
+                        consts.pop(st.targets[0].id, None)
+                        continue
+                    if isinstance(v, str):
+                        consts[st.targets[0].id] = v
+                    elif isinstance(v, (list, tuple)) and v and all(isinstance(x, str) for x in v):
+                        consts[st.targets[0].id] = list(v)
+                    else:
+                        consts.pop(st.targets[0].id, None)
+            for n in ast.walk(tree):
+                if isinstance(n, ast.FunctionDef):
+                    n._tables, n._table_mods, n._table_attrs = g, mods, tabs
+                    n._consts = {k_: v_ for k_, v_ in consts.items() if k_ not in norm._bound_names(n)}
+            _CACHE[k] = tree
+    return _CACHE[k]
+
+
+def _table_names(stage):
+    """module-level dict objects of esr/fitting/sympy_symbols.py (the symbol table every sympify call is given)"""
+    try:
+        src = extract._read(stage, TABLE_FILE)
+        tree = ast.parse(src)
+    except Exception as e:
+        raise ExtractError("%s not readable (%s): where is the shared symbol table?" % (TABLE_FILE, e))
+    k = (stage, "tables", hash(src))
+    if k not in _CACHE:
+        out = set()
+        for st in tree.body:
+            if isinstance(st, (ast.Assign, ast.AnnAssign)) and st.value is not None and (
+                    isinstance(st.value, (ast.Dict, ast.DictComp)) or (isinstance(st.value, ast.Call) and ast.unparse(st.value.func) in ("dict", "collections.OrderedDict", "OrderedDict"))):
+                for t in (st.targets if isinstance(st, ast.Assign) else [st.target]):
+                    if isinstance(t, ast.Name):
+                        out.add(t.id)
+        _CACHE[k] = out
+    return _CACHE[k]
+
+
+def _open_mode(c, env, fname):
+    m = c.args[1] if len(c.args) > 1 else None
+    for kw in c.keywords:
+        if kw.arg == "mode":
+            m = kw.value
+        elif kw.arg is None:
+            raise ExtractError("open(**...) at %s:%d not modelled" % (fname, c.lineno))
+    if m is None:
+        return "r"
+    if isinstance(m, ast.Constant) and isinstance(m.value, str):
+        mode = m.value
+    elif isinstance(m, ast.Name) and isinstance(env.get(m.id), str) and "{" not in env[m.id]:
+        mode = env[m.id]
+    else:
+        raise ExtractError("open mode %s at %s:%d is not a literal" % (ast.unparse(m)[:30], fname, c.lineno))
+    mode = mode.replace("b", "").replace("t", "") or "r"
+    if mode not in ("r", "w", "a"):
+        raise ExtractError("open mode %r at %s:%d not modelled" % (mode, fname, c.lineno))
+    return mode
+
+
+def _seed_is_input(e, fn, kf):
+    """the seed of a generator object: a literal, a local name only ever bound to literals, or a parameter of the function (an input of the call)"""
+    if isinstance(e, ast.Constant):
+        return True
+    if isinstance(e, ast.Name):
+        bs = kf.bind.get(e.id, [])
+        a = fn.args
+        params = {x.arg: None for x in a.posonlyargs + a.args + a.kwonlyargs}
+        pos = a.posonlyargs + a.args
+        params.update({p.arg: d for p, d in zip(pos[len(pos) - len(a.defaults):], a.defaults)})
+        params.update({p.arg: d for p, d in zip(a.kwonlyargs, a.kw_defaults) if d is not None})
+        if e.id in params and len(bs) == 1:
+            return params[e.id] is None or isinstance(params[e.id], ast.Constant)
+        return bool(bs) and all(b[0] == "assign" and isinstance(b[1], ast.Constant) for b in bs)
+    return False
+
+
+def _seed_state_after(c, funcs, bound, stack):
+    """True / False when the called esr function ends with numpy's global generator freshly seeded / drawn from, None when it does neither"""
+    f = c.func
+    nm = f.id if isinstance(f, ast.Name) and f.id not in bound else (
+        f.attr if isinstance(f, ast.Attribute) and isinstance(f.value, ast.Name) and f.value.id not in bound else None)
+    if nm is None or nm not in funcs or nm in stack or len(stack) > 3:
+        return None
+    state = None
+    b2 = norm._bound_names(funcs[nm])
+    for _, c2 in norm.calls_in_order(funcs[nm]):
+        g = _npname(ast.unparse(c2.func))
+        if g == "np.random.seed":
+            state = True
+        elif g in ("np.random.shuffle", "np.random.permutation", "random.shuffle"):
+            state = False
+        else:
+            s2 = _seed_state_after(c2, funcs, b2, stack + [nm])
+            if s2 is not None:
+                state = s2
+    return state
+
+
+def _npname(f):
+    return re.sub(r"^numpy\.", "np.", f)
+
+
+def _table_facts(name, funcs, memo, stack):
+    """the shared symbol table in function `name`: which of its names may / must hold the table (local aliases, through
+    `x if c else y`, parameter defaults, and the value of a called function that returns the table), whether it returns it,
+    the first statement (index in source order) that gives the table to sympify and the first that stores into its a<i> keys
+    (directly, by `.update(<key pairs>)`, or by calling a function that does)"""
+    if name in memo:
+        return memo[name]
+    empty = dict(ret_may=False, ret_must=False, writes=False, first_use=None, first_write=None)
+    if name in stack or name not in funcs or len(stack) >= 3:
+        return empty
+    fn = funcs[name]
+    kf = norm.KeyFlow(fn)
+    stmts = norm.stmts_in_order(fn)
+    bound = norm._bound_names(fn) - {x for n in ast.walk(fn) if isinstance(n, ast.Global) for x in n.names}
+    g = set(getattr(fn, "_tables", set())) - bound
+    mods = set(getattr(fn, "_table_mods", set())) - bound
+    attrs = getattr(fn, "_table_attrs", set())
+    may, must = set(), set()
+
+    def callee(c):
+        f = c.func
+        if isinstance(f, ast.Name) and f.id in funcs and f.id not in bound:
+            return f.id
+        if isinstance(f, ast.Attribute) and isinstance(f.value, ast.Name) and f.value.id not in bound and f.attr in funcs:
+            return f.attr
+        return None
+
+    def is_table(e, names, sure):
+        if isinstance(e, ast.Name):
+            return e.id in g or e.id in names
+        if isinstance(e, ast.Attribute):
+            return e.attr in attrs and isinstance(e.value, (ast.Name, ast.Attribute)) and (ast.unparse(e.value) in mods or ast.unparse(e.value) == TABLE_MODULE)
+        if isinstance(e, ast.IfExp):
+            both = [is_table(e.body, names, sure), is_table(e.orelse, names, sure)]
+            return all(both) if sure else any(both)
+        if isinstance(e, ast.Call):
+            nm = callee(e)
+            if nm is not None:
+                return _table_facts(nm, funcs, memo, stack + [name])["ret_must" if sure else "ret_may"]
+        return False
+    a = fn.args
+    pos = a.posonlyargs + a.args
+    for p_, d_ in list(zip(pos[len(pos) - len(a.defaults):], a.defaults)) + [(p_, d_) for p_, d_ in zip(a.kwonlyargs, a.kw_defaults) if d_ is not None]:
+        if is_table(d_, set(), False):
+            may.add(p_.arg)
+    grew = True
+    while grew:
+        grew = False
+        for nm, bs in kf.bind.items():
+            if nm not in may and any(b[0] == "assign" and is_table(b[1], may, False) for b in bs):
+                may.add(nm); grew = True
+            if nm not in must and bs and all(b[0] == "assign" and is_table(b[1], must, True) for b in bs):
+                must.add(nm); grew = True
+    first_use, first_write = None, None
+    rets = []
+    for i, st in enumerate(stmts):
+        if isinstance(st, ast.Return):
+            rets.append(st.value)
+        for e in norm._own_exprs(st):
+            for n in ast.walk(e):
+                if isinstance(n, ast.Call):
+                    f = ast.unparse(n.func)
+                    if f.endswith("sympify") or f.endswith("parse_expr"):
+                        given = [kw.value for kw in n.keywords if kw.arg in ("locals", "local_dict")] + list(n.args[1:2])
+                        if any(is_table(v, may, False) for v in given) and first_use is None:
+                            first_use = (i, n.lineno)
+                    recv = kf.update_of_keys(n)
+                    if recv is not None and is_table(recv, must, True) and first_write is None:
+                        first_write = i
+                    nm = callee(n)
+                    if nm is not None and first_write is None and _table_facts(nm, funcs, memo, stack + [name])["writes"]:
+                        first_write = i
+                elif isinstance(n, ast.Subscript) and isinstance(n.ctx, ast.Store) and kf.is_key(n.slice) and is_table(n.value, must, True) \
+                        and first_write is None:
+                    first_write = i
+    out = dict(ret_may=any(v is not None and is_table(v, may, False) for v in rets),
+               ret_must=bool(rets) and all(v is not None and is_table(v, must, True) for v in rets),
+               writes=first_write is not None, first_use=first_use, first_write=first_write)
+    if not stack:
+        memo[name] = out
+    return out
+
+
+def _state_checks(name, fn, funcs, memo):
+    """-> (shuffles not seeded in this call, first sympify that is given the shared table before this function (re)bound its a<i> keys)"""
+    kf = norm.KeyFlow(fn)
+    stmts = norm.stmts_in_order(fn)
+    calls = norm.calls_in_order(fn)
+    unseeded, locs_bad = [], []
+    seeded = False
+    # generators created inside the function body from a seed that is an input of the call
+    local_rngs = set()
+    for n in ast.walk(fn):
+        if isinstance(n, ast.Assign) and isinstance(n.value, ast.Call) and _npname(ast.unparse(n.value.func)) in RNG_CTORS \
+                and n.value.args and _seed_is_input(n.value.args[0], fn, kf):
+            for t in n.targets:
+                if isinstance(t, ast.Name):
+                    local_rngs.add(t.id)
+    bound = norm._bound_names(fn)
+    for _, c in calls:
+        f = _npname(ast.unparse(c.func))
+        if f == "np.random.seed":
+            seeded = True
+        elif f in ("np.random.shuffle", "np.random.permutation", "random.shuffle"):
+            if not seeded:
+                unseeded.append("%s:%d" % (name, c.lineno))
+            seeded = False          # one seed per draw
+        elif _seed_state_after(c, funcs, bound, [name]) is not None:
+            # a called function that seeds / draws from numpy's global generator leaves it seeded or used (its own draws are judged there)
+            seeded = _seed_state_after(c, funcs, bound, [name])
+        elif isinstance(c.func, ast.Attribute) and c.func.attr in ("shuffle", "permutation", "choice", "permuted") and isinstance(c.func.value, ast.Name):
+            # a draw from some generator object: it must be created in this call from a literal seed
+            # (a module-level or default-argument generator carries state from earlier calls)
+            if c.func.value.id not in local_rngs:
+                unseeded.append("%s:%d" % (name, c.lineno))
+    t = _table_facts(name, funcs, memo, [])
+    if t["first_use"] is not None and (t["first_write"] is None or t["first_write"] > t["first_use"][0]):
+        locs_bad.append("%s:%d" % (name, t["first_use"][1]))
+    return unseeded, locs_bad
+
+
 def analyse(stage, files=None, entry_file=None):
     files = files or FILES
     entry_file = entry_file or FILES[0]
     funcs = {}
     for rel in files:
-        for n in extract._parse(stage, rel).body:
+        for n in _module(stage, rel).body:
             if isinstance(n, ast.FunctionDef):
                 funcs[n.name] = n
     effs = []
@@ -105,21 +404,30 @@ def analyse(stage, files=None, entry_file=None):
     def walk_fn(name, env, depth, stack):
         fn = funcs[name]
         visited.add(name)
-        walk(fn.body, dict(env), name, depth, stack + [name])
+        e0 = dict(getattr(fn, "_consts", {}))           # module-level constant names / lists of names
+        e0.update(env)
+        walk(fn.body, e0, name, depth, stack + [name])
 
     def handle_call(c, env, fname, depth, stack):
         full = ast.unparse(c.func)
         if full == "open" and c.args:
-            mode = c.args[1].value if len(c.args) > 1 and isinstance(c.args[1], ast.Constant) else "r"
-            if mode not in ("r", "w", "a"):
-                raise ExtractError("open mode %r at %s:%d not modelled" % (mode, fname, c.lineno))
+            mode = _open_mode(c, env, fname)
             effs.append((fname, c.lineno, _key(_fmt(c.args[0], env)), mode))
         elif full in READERS and c.args:
             effs.append((fname, c.lineno, _key(_fmt(c.args[0], env)), "r"))
         elif full in WRITERS and c.args:
             effs.append((fname, c.lineno, _key(_fmt(c.args[0], env)), "w"))
-        elif full == "os.remove" and c.args:
+        elif full in ("os.remove", "os.unlink") and c.args:
             effs.append((fname, c.lineno, _key(_fmt(c.args[0], env)), "rm"))
+        elif full in ("os.rename", "os.replace", "shutil.move") and len(c.args) == 2:
+            a_, b_ = _key(_fmt(c.args[0], env)), _key(_fmt(c.args[1], env))       # as the shell's mv
+            effs.extend([(fname, c.lineno, a_, "r"), (fname, c.lineno, b_, "w"), (fname, c.lineno, a_, "rm")])
+        elif full in ("shutil.copy", "shutil.copyfile", "shutil.copy2") and len(c.args) == 2:
+            effs.extend([(fname, c.lineno, _key(_fmt(c.args[0], env)), "r"), (fname, c.lineno, _key(_fmt(c.args[1], env)), "w")])
+        elif full.split(".")[0] in ("shutil", "tempfile", "pathlib") or full in ("Path", "os.truncate", "os.open", "os.removedirs", "os.rmdir", "io.open",
+                                                                                 "np.save", "np.savez", "np.load", "np.fromfile", "numpy.save", "numpy.load") \
+                or (isinstance(c.func, ast.Attribute) and c.func.attr in ("write_text", "write_bytes", "read_text", "read_bytes", "tofile", "touch")):
+            raise ExtractError("file operation %s at %s:%d not modelled" % (full[:40], fname, c.lineno))
         elif full == "os.system" and c.args:
             for k, a in _shell(_fmt(c.args[0], env), fname, c.lineno):
                 effs.append((fname, c.lineno, k, a))
@@ -148,7 +456,9 @@ def analyse(stage, files=None, entry_file=None):
                 except Exception:
                     if isinstance(st.iter, ast.Name) and isinstance(env.get(st.iter.id), list):
                         lit = env[st.iter.id]
-                if isinstance(lit, list) and all(isinstance(x, str) for x in lit) and isinstance(st.target, ast.Name):
+                if isinstance(lit, tuple):
+                    lit = list(lit)             # a literal tuple of names is unrolled like a literal list
+                if isinstance(lit, list) and lit and all(isinstance(x, str) for x in lit) and isinstance(st.target, ast.Name):
                     for x in lit:
                         e2 = dict(env); e2[st.target.id] = x
                         walk(st.body, e2, fname, depth, stack)
@@ -174,18 +484,23 @@ def analyse(stage, files=None, entry_file=None):
                 if isinstance(st, ast.Assign) and len(st.targets) == 1 and isinstance(st.targets[0], ast.Name):
                     try:
                         v = ast.literal_eval(st.value)
-                        if isinstance(v, list) and all(isinstance(x, str) for x in v):
+                        if isinstance(v, (list, tuple)) and v and all(isinstance(x, str) for x in v):
+                            env[st.targets[0].id] = list(v)
+                        elif isinstance(v, str):
                             env[st.targets[0].id] = v
                     except Exception:
-                        if isinstance(st.value, (ast.BinOp, ast.Constant, ast.JoinedStr)):
-                            s = _fmt(st.value, env)
+                        if isinstance(st.value, (ast.BinOp, ast.Constant, ast.JoinedStr)) or (isinstance(st.value, ast.Name) and st.value.id in env) \
+                                or (isinstance(st.value, ast.Call) and (ast.unparse(st.value.func) in ("os.path.join", "path.join") or (
+                                    isinstance(st.value.func, ast.Attribute) and st.value.func.attr == "format" and isinstance(st.value.func.value, ast.Constant)))):
+                            # a hoisted file name: `path = dirname + ...`, `path = os.path.join(...)`, `path = "...{}".format(...)`
+                            s = env[st.value.id] if isinstance(st.value, ast.Name) else _fmt(st.value, env)
                             env[st.targets[0].id] = s
                 visit_expr(st, env, fname, depth, stack)
 
     if "main" not in funcs:
         raise ExtractError("duplicate_checker.main not found")
     # `main` of duplicate_checker (the dict holds the last `main` seen: make sure it is that one)
-    dc = extract._parse(stage, entry_file)
+    dc = _module(stage, entry_file)
     funcs["main"] = extract.find_def(dc, "main")
     # same-named helpers of the entry module win over those of other modules
     for n in dc.body:
@@ -196,38 +511,12 @@ def analyse(stage, files=None, entry_file=None):
         raise ExtractError("no file effect found in the generation stage")
 
     unseeded, locs_bad = [], []
+    memo = {}
     for name, fn in funcs.items():
         if name not in visited:
             continue                    # only what the generation stage can reach
-        calls = sorted([c for c in ast.walk(fn) if isinstance(c, ast.Call)], key=lambda c: (c.lineno, c.col_offset))
-        seeded = False
-        # generators created inside the function body from a literal seed
-        local_rngs = set()
-        for n in ast.walk(fn):
-            if isinstance(n, ast.Assign) and isinstance(n.value, ast.Call) and ast.unparse(n.value.func) in (
-                    "np.random.RandomState", "np.random.default_rng", "numpy.random.RandomState", "numpy.random.default_rng", "random.Random") \
-                    and n.value.args and isinstance(n.value.args[0], ast.Constant):
-                for t in n.targets:
-                    if isinstance(t, ast.Name):
-                        local_rngs.add(t.id)
-        for c in calls:
-            f = ast.unparse(c.func)
-            if f == "np.random.seed":
-                seeded = True
-            elif f in ("np.random.shuffle", "np.random.permutation", "random.shuffle"):
-                if not seeded:
-                    unseeded.append("%s:%d" % (name, c.lineno))
-                seeded = False          # one seed per draw
-            elif isinstance(c.func, ast.Attribute) and c.func.attr in ("shuffle", "permutation", "choice", "permuted") and isinstance(c.func.value, ast.Name):
-                # a draw from some generator object: it must be created in this call from a literal seed
-                # (a module-level or default-argument generator carries state from earlier calls)
-                if c.func.value.id not in local_rngs:
-                    unseeded.append("%s:%d" % (name, c.lineno))
-        uses = [c for c in calls if ast.unparse(c.func).endswith("sympify") and any(kw.arg == "locals" and ast.unparse(kw.value) == "locs" for kw in c.keywords)]
-        if uses:
-            writes = [n for n in ast.walk(fn) if isinstance(n, ast.Assign) and any(isinstance(t, ast.Subscript) and ast.unparse(t.value) == "locs" for t in n.targets)]
-            if not writes or min(w.lineno for w in writes) > min(u.lineno for u in uses):
-                locs_bad.append("%s:%d" % (name, min(u.lineno for u in uses)))
+        u, l = _state_checks(name, fn, funcs, memo)
+        unseeded += u; locs_bad += l
     return effs, unseeded, locs_bad
 
 
